@@ -226,7 +226,8 @@ Print Assumptions C13_temp_all_zero_flagged.
 Theorem C13_ml_score_flagged :
   forall (f : file) (cs : list cue), violations f = Some cs ->
   forall (n : Z) (ft : feat) (l : Z),
-    lends f = Some n -> In ft (f_feats f) -> ft_data ft = MlScore l true ->
+    lends f = Some n -> mlclass_stored f = false ->
+    In ft (f_feats f) -> ft_data ft = MlScore l true ->
     In MlClassError cs.
 Proof. exact ml_score_flagged. Qed.
 Print Assumptions C13_ml_score_flagged.
